@@ -17,7 +17,7 @@
 (* The value "e" stands for the empty byte string, which is akd's          *)
 (* TOMBSTONE constant: publishing it and tombstoning coincide in storage.  *)
 (***************************************************************************)
-EXTENDS Naturals, Sequences, FiniteSets
+EXTENDS AkdMarkers
 
 CONSTANTS Labels,     \* user labels (strings)
           Values      \* values (strings), may contain "e" (the empty value)
@@ -160,7 +160,6 @@ LeafShape ==
 
 (* C02/C06: on an honest tree exactly one version of a label looks "latest" to the   *)
 (* lookup verifier: fresh(v) present, its marker present, stale(v) absent, v <= epoch *)
-Pow2Floor(v) == CHOOSE p \in 1..v : (\E k \in 0..v : p = 2^k) /\ p <= v /\ 2 * p > v
 HasFresh(x, v) == \E lf \in Leaves : lf[1] = x /\ lf[2] = "F" /\ lf[3] = v
 HasStale(x, v) == \E lf \in Leaves : lf[1] = x /\ lf[2] = "S" /\ lf[3] = v
 LooksLatest(x, v) == HasFresh(x, v) /\ HasFresh(x, Pow2Floor(v)) /\ ~HasStale(x, v) /\ v <= epoch
